@@ -21,7 +21,13 @@ case = {"kind": "duplex", "seed": n, "cap": bytes per pipe, "ver": "1.3" | "1.2"
         "start": {"a1": k, "a2": k, "a3": k, "b1": k, "b2": k, "b3": k}   bare yields before a task starts (default 0)
         "b_after": n   side b's senders start only once b's reader has received n bytes (request / response), default 0
         "frag": [a, b] largest piece the pipe hands to one recv_into of side a / b (0 = everything)
-        "chunk": [a, b] bytes copied per step of send_all, with a yield between two steps (0 = as much as fits)}
+        "chunk": [a, b] bytes copied per step of send_all, with a yield between two steps (0 = as much as fits)
+        "lend": bool   the wrapped transports KEEP the buffer given to recv_into across the suspension and a loop callback
+                       fills it one loop iteration BEFORE the waiting task resumes (what asyncio's BufferedProtocol does:
+                       get_buffer() returns the caller's buffer, the selector callback fills it, buffer_updated() resolves a
+                       future).  Both ends live in this process and both readers are parked at the same time, so two
+                       deliveries land in the same loop iteration: a buffer (or any other state) shared between two
+                       transports, or a buffer re-used while it is lent, shows up as corrupted ciphertext.  Default false.}
 """
 from __future__ import annotations
 
@@ -47,6 +53,13 @@ class Pipe:
         self.closed = False
         self.full_waits = 0            # how many times a sender had to wait for room (backpressure really happened)
         self.total = 0
+        self.reader_cb = None          # "lend" mode: the delivery callback of the transport whose recv_into is parked
+
+    def notify_reader(self) -> None:
+        """lend mode: something changed (bytes arrived / closed) -> the delivery runs as a LOOP CALLBACK, like a selector event"""
+        cb = self.reader_cb
+        if cb is not None:
+            asyncio.get_running_loop().call_soon(cb)
 
     @staticmethod
     def _wake(ws: list[asyncio.Future]) -> None:
@@ -68,17 +81,26 @@ class Pipe:
         self.closed = True
         self._wake(self.data_waiters)
         self._wake(self.space_waiters)
+        try:
+            self.notify_reader()
+        except RuntimeError:           # closed from outside a running loop (tear-down)
+            pass
 
 
 class PipeTransport(AsyncStreamTransport):
     """one end of a pair of bounded pipes (EasyNetwork's own transport ABC).  `rec` = the recorder of side a, or None."""
 
-    def __init__(self, backend: env.HBackend, rec: env.Rec | None, inp: Pipe, out: Pipe, *, frag: int = 0, chunk: int = 0) -> None:
+    def __init__(self, backend: env.HBackend, rec: env.Rec | None, inp: Pipe, out: Pipe, *, frag: int = 0, chunk: int = 0,
+                 lend: bool = False) -> None:
         super().__init__()
         self._backend = backend
         self.rec = rec
         self.inp, self.out = inp, out
         self.frag, self.chunk = int(frag), int(chunk)
+        self.lend = bool(lend)
+        self.collisions = 0            # lend mode: deliveries made while the peer's lent buffer was filled but not yet read
+        self.filled_unread = False
+        self.peer_tr: "PipeTransport | None" = None
         self.classify = None
         self.sent: list[bytes] = []
         self.taken = bytearray()
@@ -112,6 +134,40 @@ class PipeTransport(AsyncStreamTransport):
         self.inp.close()
         await asyncio.sleep(0)
 
+    async def _recv_lent(self, buffer) -> tuple[int, bytes]:
+        """the buffer is LENT: it stays with the transport while the caller is suspended; a loop callback copies the bytes
+        into it and resolves the future, the caller resumes one loop iteration later"""
+        loop = asyncio.get_running_loop()
+        fut: asyncio.Future = loop.create_future()
+        with memoryview(buffer) as mv0:
+            mv = mv0.cast("B") if mv0.itemsize != 1 else mv0
+
+            def deliver() -> None:
+                if fut.done():
+                    return
+                if not self.inp.buf:
+                    if self.inp.closed or self.closing:
+                        fut.set_result((0, b""))
+                    return                                      # nothing yet: the next write schedules another delivery
+                n = min(len(self.inp.buf), mv.nbytes, self.frag or (1 << 30))
+                data = bytes(self.inp.buf[:n])
+                mv[:n] = data
+                del self.inp.buf[:n]
+                self.taken += data
+                self.filled_unread = True
+                if self.peer_tr is not None and self.peer_tr.filled_unread:
+                    self.collisions += 1
+                Pipe._wake(self.inp.space_waiters)
+                fut.set_result((n, data))
+
+            self.inp.reader_cb = deliver
+            try:
+                loop.call_soon(deliver)                         # (bytes may be there already: "the socket is readable")
+                return await fut
+            finally:
+                self.inp.reader_cb = None
+                self.filled_unread = False
+
     async def recv_into(self, buffer) -> int:
         t = env.cur()
         self._line(f"rcv {t}")
@@ -119,6 +175,13 @@ class PipeTransport(AsyncStreamTransport):
         if self.active_recv > 1:
             self.overlap.append("recv_into")
         try:
+            if self.lend and memoryview(buffer).nbytes:
+                n, data = await self._recv_lent(buffer)
+                if n == 0:
+                    self._op(f"resume {t} eof")
+                    return 0
+                self._op(f"resume {t} data {data.hex()}")
+                return n
             while not self.inp.buf:
                 if self.inp.closed or self.closing:
                     self._op(f"resume {t} eof")
@@ -160,6 +223,7 @@ class PipeTransport(AsyncStreamTransport):
                 self.out.total += k
                 view = view[k:]
                 Pipe._wake(self.out.data_waiters)
+                self.out.notify_reader()
                 if len(view) and self.chunk:
                     await asyncio.sleep(0)
         finally:
@@ -271,8 +335,10 @@ def run_duplex(case: dict) -> list[str]:
         chunk = case.get("chunk") or [0, 0]
         ab, ba = Pipe(cap), Pipe(cap)
         box["ab"], box["ba"] = ab, ba
-        A = PipeTransport(env.HBackend(rec), rec, ba, ab, frag=frag[0], chunk=chunk[0])
-        B = PipeTransport(env.HBackend(None), None, ab, ba, frag=frag[1], chunk=chunk[1])
+        lend = bool(case.get("lend"))
+        A = PipeTransport(env.HBackend(rec), rec, ba, ab, frag=frag[0], chunk=chunk[0], lend=lend)
+        B = PipeTransport(env.HBackend(None), None, ab, ba, frag=frag[1], chunk=chunk[1], lend=lend)
+        A.peer_tr, B.peer_tr = B, A
         box["A"], box["B"] = A, B
         box["b_gate"] = asyncio.Event()
         a_server = role == "server"
@@ -368,6 +434,9 @@ def run_duplex(case: dict) -> list[str]:
         ab, ba = box.get("ab"), box.get("ba")
         if ab is not None and ba is not None:
             lines.append(f"o.backpressure a2b={ab.full_waits} b2a={ba.full_waits} cap={ab.cap}")
+        if case.get("lend") and B is not None:
+            # how many deliveries filled one side's lent buffer while the other side's was filled and not yet read
+            lines.append(f"o.lent-collisions {A.collisions + B.collisions}")
         eng = ctx.engine if ctx is not None else None
         if eng is not None:
             lines.append(f"o.wire-is-bio {int(bytes(eng.out_all).startswith(wire))} wire={len(wire)} out={len(eng.out_all)}")
